@@ -63,6 +63,8 @@ def cache_cfgs():
     c.append(dict(small, OP=OPS["FLUSH"], FAULT=None))
     # bad sector: writes touching ONE symbolic block fail, all others succeed (an earlier failure must survive later successes)
     c.append(dict(small, OP=OPS["FLUSH"], FAULT=None, BADSECTOR=None))
+    c.append(dict(small, OP=OPS["CLOSE"], FAULT=None))
+    c.append(dict(small, OP=OPS["CLOSE"], FAULT=None, BADSECTOR=None))
     c.append(dict(withcnt(small, 1), OP=OPS["WRITE"], FAULT=None, BADSECTOR=None))
     c.append(dict(withcnt(small, 3), OP=OPS["WRITE"], FAULT=None, BADSECTOR=None, **T))
     c.append(dict(withcnt(real, 1), OP=OPS["WRITE"], WITH_NOCACHE=None))
